@@ -6,6 +6,7 @@ mod cmp;
 mod core;
 mod model;
 mod props;
+mod refm;
 mod sched;
 mod subj;
 mod tree;
@@ -80,6 +81,10 @@ fn main() {
         ("C03", Some(p)) => props::c03::replay(&p),
         ("C04", None) => props::c04::run(&ctx),
         ("C04", Some(p)) => props::c04::replay(&p),
+        ("C05", None) => props::c05::run(&ctx),
+        ("C05", Some(p)) => props::c05::replay(&p),
+        ("C06", None) => props::c06::run(&ctx),
+        ("C06", Some(p)) => props::c06::replay(&p),
         ("C08", None) => props::c08::run(&ctx),
         ("C08", Some(p)) => props::c08::replay(&p),
         ("C09", None) => props::c09::run(&ctx),
